@@ -15,7 +15,8 @@ import time
 VERIF = os.path.dirname(os.path.dirname(os.path.abspath(__file__)))
 REPO = os.environ.get("VERIF_REPO", "/repo")
 HARNESS = os.path.join(VERIF, "harness")
-BUILD = os.path.join(VERIF, ".build")
+BUILD = os.environ.get("VERIF_BUILD_DIR") or os.path.join(VERIF, ".build")
+EVIDENCE_DIR = os.environ.get("VERIF_EVIDENCE_DIR") or os.path.join(VERIF, "evidence")  # calibration runs against scratch copies write elsewhere
 NCPU = min(16, os.cpu_count() or 4)
 
 
@@ -144,6 +145,27 @@ def build_engine(engine, flavor, pool=None):
     os.replace(tmp, binary)
     log("[build] %s/%s in %.1fs" % (engine["name"], flavor, time.time() - t0))
     return binary
+
+
+def engine_paths(engine, flavor):
+    """(object files incl. stub variants, binary) the engine uses for the current tree, without building anything"""
+    comp, flags = FLAVORS[flavor]
+    inc = os.path.join(REPO, "include")
+    base = hashlib.sha256((tree_hash(inc) + harness_headers_hash() + comp + flags).encode()).hexdigest()
+    objs, all_objs = [], set()
+    for u in engine["units"]:
+        src, defs = u[0], u[1]
+        with open(os.path.join(HARNESS, src), "rb") as fh:
+            sh = hashlib.sha256(fh.read()).hexdigest()
+        for i, dd in enumerate((defs, defs + ["-DVK_STUB"])):
+            key = hashlib.sha256((base + sh + " ".join(dd)).encode()).hexdigest()[:24]
+            o = os.path.join(BUILD, "%s-%s-%s.o" % (os.path.splitext(src)[0], flavor, key))
+            all_objs.add(o)
+            if i == 0:
+                objs.append(o)
+    id_key = hashlib.sha256(("".join(objs) + " ".join(engine.get("libs", []))).encode()).hexdigest()[:24]
+    binary = os.path.join(BUILD, "%s-%s-%s.bin" % (engine["name"], flavor, id_key))
+    return all_objs, binary
 
 
 def build_failures(binary):
@@ -364,7 +386,9 @@ def run_sharded(prop, binary, args, cases, seed, tier, nshards, timeout_s, repla
                         merged["inconclusive"] = "shard %d crashed at case %d but the isolated re-run found nothing: %s" % (shard, idx, err[-800:])
                         return merged
                     crashes += 1
-                    if crashes >= 40:
+                    if crashes >= 3:
+                        # enough witnesses from this shard; the verdict is already "violated"
+                        merged["counters"]["shards_abandoned_after_crashes"] = 1
                         return merged
                     resume = idx + 1
                     continue
@@ -430,10 +454,10 @@ def load_known():
 
 
 def write_evidence(prop, tier, seed, level, coverage, assumptions, wall, nviol):
-    os.makedirs(os.path.join(VERIF, "evidence"), exist_ok=True)
+    os.makedirs(EVIDENCE_DIR, exist_ok=True)
     ev = {"property_id": prop, "tier": tier, "seed": seed, "level": level, "coverage": coverage,
           "assumptions": assumptions, "wall_s": round(wall, 2), "violations": nviol}
-    p = os.path.join(VERIF, "evidence", prop + ".json")
+    p = os.path.join(EVIDENCE_DIR, prop + ".json")
     with open(p + ".tmp", "w") as fh:
         json.dump(ev, fh, indent=1)
     os.replace(p + ".tmp", p)
@@ -488,6 +512,8 @@ def main(argv):
         return 0
     if argv[0] == "--build-all":
         return props.build_all()
+    if argv[0] == "--gc":
+        return props.gc_build()
     prop = argv[0]
     tier = os.environ.get("VERIF_TIER", "quick")
     replay = None
